@@ -4,6 +4,8 @@
 //! The sub-products enumerated are named in the evidence (`spaces`); nothing is sampled.
 //!
 //! Mutants caught (tools/mutant_run.sh H <diff> C03 quick; each adds a key class that never occurs on the unchanged tree):
+//!   /verif/mutants/C03-empty-title-not-serialised.diff (independently seeded, first MISSED; led to the boundary-value leg)
+//!       -> `boundary signed-but-unreadable kind=ClaimDecoding field=title value=empty v=*`
 //!   /verif/mutants/C03-title-only-in-v2-claims.diff  -> `title asset=*` (19 cases, sub-product B, claim v1)
 //!   /verif/mutants/C03-jpeg-segment-65535.diff       -> `sign-panic mode=embedded asset=jpeg*` (definitions with >= 64 KiB payloads)
 
@@ -341,6 +343,169 @@ fn execute(run: &Run, name: &str, cases: &[Case]) {
     }
 }
 
+
+// ------------------------------------------------------------------------------------------------------------
+// boundary values for every scalar definition field
+// ------------------------------------------------------------------------------------------------------------
+
+pub const B_FIELDS: [&str; 7] = ["title", "generator.name", "generator.version", "vendor", "label", "instance_id", "format"];
+pub const B_VALUES: [&str; 7] = ["absent", "empty", "space", "1char", "non-ascii", "255chars", "256chars"];
+
+fn b_value(id: &str) -> Option<String> {
+    match id {
+        "absent" => None,
+        "empty" => Some(String::new()),
+        "space" => Some(" ".into()),
+        "1char" => Some("x".into()),
+        "non-ascii" => Some("\u{fc}\u{2713}\u{65e5}".into()),
+        "255chars" => Some("t".repeat(255)),
+        _ => Some("t".repeat(256)),
+    }
+}
+
+#[derive(Clone, Debug)]
+pub struct BCase {
+    pub asset: String,
+    pub ver: u8,
+    pub field: String,
+    pub value: String,
+}
+impl BCase {
+    pub fn to_json(&self) -> Value {
+        json!({"leg": "boundary", "asset": self.asset, "ver": self.ver, "field": self.field, "value": self.value})
+    }
+    pub fn from_json(v: &Value) -> BCase {
+        BCase { asset: v["asset"].as_str().unwrap_or("jpeg").into(), ver: v["ver"].as_u64().unwrap_or(2) as u8, field: v["field"].as_str().unwrap_or("title").into(), value: v["value"].as_str().unwrap_or("empty").into() }
+    }
+    pub fn id(&self) -> String {
+        format!("boundary {} v={} {}={}", self.asset, self.ver, self.field, self.value)
+    }
+    /// The definition: every field at its ordinary value except the one under test.
+    pub fn definition(&self) -> Value {
+        let mut d = json!({"title": defs::TITLE, "claim_generator_info": [{"name": defs::GEN_NAME, "version": defs::GEN_VERSION}], "claim_version": self.ver});
+        let v = b_value(&self.value);
+        let set = |obj: &mut Value, key: &str| match &v {
+            Some(x) => obj[key] = json!(x),
+            None => {
+                if let Some(o) = obj.as_object_mut() {
+                    o.remove(key);
+                }
+            }
+        };
+        match self.field.as_str() {
+            "title" => set(&mut d, "title"),
+            "generator.name" => set(&mut d["claim_generator_info"][0], "name"),
+            "generator.version" => set(&mut d["claim_generator_info"][0], "version"),
+            f => set(&mut d, f),
+        }
+        d
+    }
+    /// Is a signing error for this value a violation (the value is plainly a legal one for the field)?
+    fn must_sign(&self) -> bool {
+        match self.field.as_str() {
+            // any title but the empty string (the claim CDDL says tstr .size (1..)); an absent title is legal
+            "title" => self.value != "empty",
+            // a generator name must be present; "" / " " are plausibly rejected
+            "generator.name" => !["absent", "empty", "space"].contains(&self.value.as_str()),
+            "generator.version" => !["empty", "space"].contains(&self.value.as_str()),
+            // grammar-restricted fields (vendor / label / instance id / mime type): only absence must work
+            _ => self.value == "absent",
+        }
+    }
+}
+
+pub fn run_bcase(c: &BCase) -> Outcome {
+    let a = assets::by_name(&c.asset);
+    let mut failures = vec![];
+    let fv = format!("field={} value={} v={}", c.field, c.value, c.ver);
+    let signed = par::guard(|| -> c2pa::Result<Vec<u8>> {
+        let signer = sdk::fixture_signer("ed25519");
+        let mut b = Builder::from_context(sdk::ctx()).with_definition(c.definition())?;
+        b.set_intent(BuilderIntent::Create(DigitalSourceType::DigitalCapture));
+        let mut dst = Cursor::new(Vec::new());
+        b.sign(signer.as_ref(), a.mime, &mut Cursor::new(&a.data), &mut dst)?;
+        Ok(dst.into_inner())
+    });
+    let out = match signed {
+        Err(p) => {
+            failures.push((format!("boundary sign-panic {fv}"), p));
+            return Outcome { class: "boundary:sign-panic".into(), failures, compared: false };
+        }
+        Ok(Err(e)) => {
+            let k = sdk::err_kind(&e);
+            if c.must_sign() {
+                failures.push((format!("boundary sign-error kind={k} {fv}"), format!("{e:?}")));
+            }
+            return Outcome { class: format!("boundary:sign-err:{k}"), failures, compared: false };
+        }
+        Ok(Ok(o)) => o,
+    };
+    // signing succeeded: the output must read back, Valid, with what was supplied
+    let rd = match par::guard(|| sdk::read(sdk::ctx(), a.mime, &out)) {
+        Err(p) => {
+            failures.push((format!("boundary read-panic {fv}"), p));
+            return Outcome { class: "boundary:read-panic".into(), failures, compared: false };
+        }
+        Ok(Err(e)) => {
+            failures.push((format!("boundary signed-but-unreadable kind={} {fv}", sdk::err_kind(&e)), format!("Builder::sign returned Ok, reading the output fails: {e:?}")));
+            return Outcome { class: format!("boundary:read-err:{}", sdk::err_kind(&e)), failures, compared: false };
+        }
+        Ok(Ok(r)) => r,
+    };
+    let state = sdk::state_name(rd.validation_state());
+    if state != "Valid" {
+        failures.push((format!("boundary state={state} {fv}"), format!("codes {:?}", kit::canon::codes(&rd).iter().filter(|x| x.contains("/failure")).collect::<Vec<_>>())));
+    }
+    let j: Value = serde_json::from_str(&rd.json()).unwrap_or(Value::Null);
+    let m = &j["manifests"][j["active_manifest"].as_str().unwrap_or("")];
+    let supplied = b_value(&c.value);
+    let want_title = if c.field == "title" { supplied.clone() } else { Some(defs::TITLE.to_string()) };
+    let got_title = m["title"].as_str().map(|x| x.to_string());
+    // an empty title and an absent title are the same report (the claim cannot carry a zero-length dc:title)
+    let norm = |t: &Option<String>| t.clone().filter(|x| !x.is_empty());
+    if norm(&want_title) != norm(&got_title) {
+        failures.push((format!("boundary title {fv}"), format!("reported title {:?}", got_title.map(|t| short(&t)))));
+    }
+    let cgi = &m["claim_generator_info"][0];
+    let want_name = if c.field == "generator.name" { supplied.clone() } else { Some(defs::GEN_NAME.to_string()) };
+    let want_ver = if c.field == "generator.version" { supplied.clone() } else { Some(defs::GEN_VERSION.to_string()) };
+    if cgi["name"].as_str().map(|x| x.to_string()) != want_name || cgi["version"].as_str().map(|x| x.to_string()) != want_ver {
+        failures.push((format!("boundary claim-generator-info {fv}"), format!("reported name {:?} version {:?}", cgi["name"].as_str().map(short), cgi["version"].as_str().map(short))));
+    }
+    // Builder::sign documents setting the format from its `format` argument; claim v2 has no format field
+    let fmt_ok = match m["format"].as_str() { Some(f) => f == a.mime, None => c.ver >= 2 };
+    if !fmt_ok {
+        failures.push((format!("boundary format {fv}"), format!("reported format {:?}", m["format"])));
+    }
+    let class = if failures.is_empty() { "boundary:ok".to_string() } else { "boundary:oracle-failure".to_string() };
+    Outcome { class, failures, compared: true }
+}
+
+fn execute_boundary(run: &Run, name: &str, cases: &[BCase]) {
+    let stats = STATS.get_or_init(Default::default);
+    run.space(name, cases.len() as u64, true);
+    par::for_each(cases, |c| {
+        let o = run_bcase(c);
+        run.eval();
+        run.outcome(o.class.clone());
+        if o.compared {
+            run.nontrivial(c.id());
+        }
+        for (k, w) in o.failures {
+            stats.violation(run, 6, format!("{k} asset={}", c.asset), format!("{}: {w}", c.id()), c.to_json());
+        }
+    });
+}
+
+pub fn boundary_cases(thorough: bool) -> Vec<BCase> {
+    let assets: Vec<String> = if thorough { assets::base().iter().map(|a| a.name.to_string()).collect() } else { vec!["jpeg".into(), "png".into()] };
+    let mut v = vec![];
+    for a in &assets { for ver in [1u8, 2] { for f in B_FIELDS { for val in B_VALUES {
+        v.push(BCase { asset: a.clone(), ver, field: f.into(), value: val.into() });
+    }}}}
+    v
+}
+
 pub fn run(run: &Run, replay: Option<&Value>) {
     run.rule("cases = configurations (asset, signing alg, claim hash alg, compressed, claim version, embedded|sidecar|remote+embedded, trust anchors, definition); \
               each is signed with Builder::sign (intent Create) and read back with Reader; the sub-products enumerated are listed in `spaces`. \
@@ -348,7 +513,19 @@ pub fn run(run: &Run, replay: Option<&Value>) {
     run.assume("intent Create(DigitalCapture): the SDK documents adding a c2pa.created action; auto thumbnails are disabled so a thumbnail is reported iff one was supplied");
     run.assume("definitions avoid floats; labels follow the C2PA label grammar (ALPHA / DIGIT / '-' / '_' components separated by '.')");
     run.assume("remote+embedded on a format whose handler has no remote-reference writer may fail (outcome class sign-err-remote-unsupported); everything else must sign");
+    run.assume("boundary leg: one scalar definition field at a time takes {absent, \"\", \" \", 1 char, non-ASCII, 255, 256 chars}; a signing error is only an outcome when the value is plausibly illegal for the field (empty title, blank generator name/version, any non-absent vendor / label / instance id / format); whenever signing succeeds the output must read back Valid with title and claim generator as supplied (an empty title and an absent title are treated as the same report); the reported format is the one Builder::sign was called with, as documented");
     if let Some(c) = replay {
+        if c["leg"] == "boundary" {
+            let case = BCase::from_json(c);
+            let o = run_bcase(&case);
+            println!("replay {}: class {}", case.id(), o.class);
+            run.eval();
+            for (k, w) in o.failures {
+                println!("  FAIL {k}: {w}");
+                run.violation(format!("{k} asset={}", case.asset), w, c.clone());
+            }
+            return;
+        }
         let case = Case::from_json(c);
         let o = run_case(&case);
         println!("replay {}: class {}", case.id(), o.class);
@@ -456,6 +633,10 @@ pub fn run(run: &Run, replay: Option<&Value>) {
         }}}
         execute(run, "T4: base asset(13) x {cbor,json} x every payload string length in 0..=300, 65400..=65700", &v);
     }
+    let bc = boundary_cases(thorough);
+    execute_boundary(run, &format!("boundary values: asset({}) x claim version(2) x scalar definition field(7: title, generator name/version, vendor, label, instance_id, format) x value(7: absent, \"\", \" \", 1 char, non-ASCII, 255 chars, 256 chars)", if thorough { 13 } else { 2 }), &bc);
+    run.sample(json!({"case": bc[1].to_json(), "definition": bc[1].definition(), "outcome": run_bcase(&bc[1]).class}));
+    run.eval();
     STATS.get_or_init(Default::default).finish(run, "C03");
     let c = Case::base("jpeg");
     run.sample(json!({"case": c.to_json(), "definition": c.def.definition(2, Some("sha256")), "outcome": run_case(&c).class}));
